@@ -237,7 +237,7 @@ def run(prog, rep, tier):
     if okb:
         named = dict(boot[0].value[3])
         fb_ = prog.funcs.get(SE + "_bootstrap")
-        pb_ = list(fb_.posparams) if fb_ is not None else ["data", "n"]          # a private helper: its parameter names are its own business
+        pb_ = list(fb_.params) if fb_ is not None else ["data", "n"]          # a private helper: its parameter names are its own business
         okb = len(pb_) >= 2 and named.get(pb_[0]) == ("sub", ("sub", ("self", "_data"), k4), ("tuple", (FULL, i4))) and named.get(pb_[1]) in (("sub", nterm, k4), ("sub", nalt, k4))
     rep.check("SLOTS.bootstrap", okb, fwhere(f4, boot[0].node if boot else None), "source node i of environment k <- _bootstrap(data_k[:, i], n_k) into column i",
               "sources are not resampled from column i of the same environment's data")
@@ -261,7 +261,7 @@ def run(prog, rep, tier):
     s5, _ = run_function(S5, f5)
     ch = [c for c in S5.select("call", qname=f5.qname) if c.callkind == "method" and c.target == ".choice"]
     okbs = False
-    pb5 = list(f5.posparams) + ["?", "?"]
+    pb5 = list(f5.params) + ["?", "?"]
     D5, N5 = ("param", pb5[0]), ("param", pb5[1])
     rs5 = [p_ for p_ in f5.params if p_ not in pb5[:2]]
     RS5 = ("param", rs5[0]) if len(rs5) == 1 else ("param", "random_state")
